@@ -5,7 +5,7 @@ import N0Verif.Proofs.CompareDefaultTight
 /-!
 # C07 — the compare verdict is exact
 
-Model: `N0Verif/Model/Compare.lean` (the code with fix patches C07-a, C08-a, C09-a applied).
+Model: `N0Verif/Model/Compare.lean` (the code with fix patches C07-a, C08-a, C09-a, C07-b, C07-c, C09-b, C10-a applied).
 Only property statements live here; helper lemmas are in `Proofs/Compare*.lean`.
 -/
 namespace N0.C07
@@ -32,103 +32,77 @@ theorem C07_direct_exact (fl : Flags) (a b : Val) (ha : isN0 a = true) (hb : isN
   rw [compareTop_eq_sub _ a b hr]
   exact sub_direct_exact _ (noOpts_default fl true) rfl .entry [] a b ha hb (rootPair_ty hr).1 (rootPair_ty hr).2
 
-/-- **C07 (default comparison).** For recursively converted trees with unique dictionary keys and
-roots of the same kind, under every flag record, `compare` (no composite key, no options) returns a
-result, and its `differences` list is empty iff the trees are equal up to the order of the non-record
-items inside each list (`eqv`: dictionaries with the same key set and `eqv` values; lists whose record
-items are pairwise `eqv` in order and whose non-record items are equal as multisets under strict
-equality) — **under the hypothesis `NoStrCollision`**: `str()` is injective on the non-record list
-items of both trees and never yields the empty string (the key of every record).  The hypothesis is
-finding C07-b; `C07_collision_cex` and `C07_emptykey_cex` show that both halves are needed. -/
-theorem C07_default_exact_partial (fl : Flags) (a b : Val) (ha : isN0 a = true) (hb : isN0 b = true)
-    (hr : RootPair a b) (hua : uniqKeys a = true) (hub : uniqKeys b = true) (hc : NoStrCollision a b) :
+/-- **C07 (default comparison).** For recursively converted trees with roots of the same kind, under every flag
+record, `compare` (no composite key, no options) returns a result, and its `differences` list is empty iff the trees
+are equal up to the order of the non-record items inside each list (`eqv`: dictionaries with the same key set and
+`eqv` values; lists whose record items are pairwise `eqv` in order and whose non-record items are the same up to
+structural equality `deq` — every item occurs, up to `deq`, equally often in both lists; in particular `1`, `'1'`,
+`1.0`, `True`, `None`, `'None'`, `''` are all different items, and a nested list does not depend on the order of the
+keys of the dictionaries inside it: the classes of the fixed findings C07-b and C07-c are inside the theorem).
+
+The one hypothesis left, `KeyFaithfulOn a b`, is a statement about the key function, not about the inputs: the
+key of the non-record list items of the two trees — `json.dumps(item, sort_keys=True, default=repr)`, `jsonVal` —
+identifies them exactly up to `deq` and is never empty.  It is true of `json.dumps` on genuine Python values; it is
+not derivable in the model, where floats are opaque lexemes (`C07_float_lexeme_cex`: the lexeme `1`), and it
+cannot be dropped (`C07_key_hypothesis_tight`). -/
+theorem C07_default_exact (fl : Flags) (a b : Val) (ha : isN0 a = true) (hb : isN0 b = true)
+    (hr : RootPair a b) (hc : KeyFaithfulOn a b) :
     ∃ r, compareTop (Cfg.default fl false) a b = .ok r ∧ (r.diffs = 0 ↔ eqv a b) :=
-  default_exact_uniq fl a b ha hb hr hua hub hc
+  default_exact fl a b ha hb hr hc
 
-/-- **C07 (default comparison, the collision hypothesis made local and one-sided).**  The same equivalence
-under much less than `NoStrCollision`:
-* `DtLocalOK b` — in every list of the RIGHT operand (at every depth) two items with the same key (`str()` of
-  a non-record item, `''` for every record) are both records or identical.  This is exactly the class of
-  finding C07-b (`[1, '1']`, `['', {}]`, `[None, 'None']` inside one list); `str()` collisions between items of
-  two different lists — `[1]` against `['1']` — are allowed (they are reported as a difference, rightly);
-  nothing is asked of the lists of the left operand;
-* `DtNestedInj a b` — `str()` determines the *lists nested directly in lists* (they are keyed by `str()`,
-  finding C07-c territory; vacuous when no list is an item of a list; true of `repr` on genuine Python values —
-  needed in the model only because floats are opaque lexemes, `C07_nested_needed_cex`). -/
-theorem C07_default_exact_local (fl : Flags) (a b : Val) (ha : isN0 a = true) (hb : isN0 b = true)
-    (hr : RootPair a b) (hua : uniqKeys a = true) (hub : uniqKeys b = true)
-    (hlb : DtLocalOK b) (hn : DtNestedInj a b) :
-    ∃ r, compareTop (Cfg.default fl false) a b = .ok r ∧ (r.diffs = 0 ↔ eqv a b) :=
-  dt_default_exact_right fl a b ha hb hr hua hub hlb hn
-
-/-- the local hypotheses follow from `NoStrCollision` (so `C07_default_exact_partial` is a special case) … -/
-theorem C07_local_of_noStrCollision (a b : Val) (hc : NoStrCollision a b) :
-    DtLocalOK a ∧ DtLocalOK b ∧ DtNestedInj a b :=
-  dt_of_noStrCollision a b hc
-
-/-- … and are strictly weaker: `{'a': [1, {'k': None}]}` against `{'a': ['1', {'k': None}]}` -/
-theorem C07_local_strictly_weaker :
-    ¬ NoStrCollision dtExA dtExB ∧ DtLocalOK dtExA ∧ DtLocalOK dtExB ∧ DtNestedInj dtExA dtExB :=
-  ⟨dtEx_not_noStrCollision, dtEx_local⟩
-
-/-- **the excluded class is tight (1).**  For ANY two distinct leaves (scalars or `None`) with the same
-`str()`, the lists `[x, y]` and `[y, x]` are equal up to order and the default comparison reports two
-differences: every member of the class of C07-b gives a wrong verdict. -/
-theorem C07_collision_class_tight (fl : Flags) (x y : Val) (hx : DtLeaf x) (hy : DtLeaf y) (hne : x ≠ y)
-    (hs : pyStr x = pyStr y) :
-    (∃ r, compareTop (Cfg.default fl false) (.list .n0 [x, y]) (.list .n0 [y, x]) = .ok r ∧ r.diffs = 2) ∧
-      eqv (.list .n0 [x, y]) (.list .n0 [y, x]) :=
-  dt_tight fl x y hx hy hne hs
-
-/-- **tight (2).**  For ANY leaf with an empty `str()` and any record `R` (equal to itself): `[x, R]` against
-`[R, x]`. -/
-theorem C07_collision_class_tight_rec (fl : Flags) (x : Val) (c : Cls) (kvs : List (Str × Val)) (hx : DtLeaf x)
-    (hs : pyStr x = []) (hR : eqv (.dict c kvs) (.dict c kvs)) :
-    (∃ r, compareTop (Cfg.default fl false) (.list .n0 [x, .dict c kvs]) (.list .n0 [.dict c kvs, x]) = .ok r ∧
-        r.diffs = 2) ∧
-      eqv (.list .n0 [x, .dict c kvs]) (.list .n0 [.dict c kvs, x]) :=
-  dt_tight_rec fl x c kvs hx hs hR
-
-/-- the hypothesis on nested lists cannot be dropped in the model: two non-identical inner lists with the same
-`str()` (a float lexeme `1, 1` makes `repr` ambiguous), free of local collisions, compared equal by the code,
-while the outer lists are not equal up to order -/
-theorem C07_nested_needed_cex :
-    (compareTop (Cfg.default Flags.init false) dtNestA dtNestB).map Res.diffs = .ok 0 ∧ ¬ eqv dtNestA dtNestB ∧
-      DtLocalOK dtNestA ∧ DtLocalOK dtNestB ∧ isN0 dtNestA = true ∧ isN0 dtNestB = true ∧
-      uniqKeys dtNestA = true ∧ uniqKeys dtNestB = true ∧ ¬ DtNestedInj dtNestA dtNestB :=
-  dt_nested_needed_cex
-
-/-- the full-strength statement (no collision hypothesis); refuted on the pinned tree by
-`C07_collision_cex`, i.e. a finding, not a gap -/
+/-- the statement without any hypothesis on the key; false **in the model only** (`C07_float_lexeme_cex`: a float
+whose lexeme is `1` has the key of the `int` 1 — not a Python value), not a finding -/
 def C07_default_exact_stmt : Prop :=
   ∀ (fl : Flags) (a b : Val), isN0 a = true → isN0 b = true → RootPair a b → uniqKeys a = true →
     uniqKeys b = true → ∃ r, compareTop (Cfg.default fl false) a b = .ok r ∧ (r.diffs = 0 ↔ eqv a b)
 
-/-- finding C07-b: `{'a': [1, '1']}` and `{'a': ['1', 1]}` are equal up to order, but `str(1) == str('1')`
-pairs `1` with `'1'` and two differences are reported -/
-theorem C07_collision_cex :
-    (compareTop (Cfg.default Flags.init false) cexA cexB).map Res.diffs = .ok 2 ∧ eqv cexA cexB ∧
-      isN0 cexA = true ∧ isN0 cexB = true ∧ RootPair cexA cexB ∧ uniqKeys cexA = true ∧ uniqKeys cexB = true :=
-  collision_cex
+theorem C07_float_lexeme_cex :
+    (compareTop (Cfg.default Flags.init false) cexF1 cexF2).map Res.diffs = .ok 2 ∧ eqv cexF1 cexF2 ∧
+      jsonVal (.flt ['1']) = jsonVal (.int 1) :=
+  ⟨float_lexeme_cex.1, float_lexeme_eqv, float_lexeme_cex.2.2.2.2.2.2⟩
 
-theorem C07_default_exact_refuted : ¬ C07_default_exact_stmt := by
+theorem C07_default_exact_stmt_false_in_model : ¬ C07_default_exact_stmt := by
   intro h
-  obtain ⟨h1, h2, h3, h4, h5, h6, h7⟩ := collision_cex
-  obtain ⟨r, hr, hiff⟩ := h Flags.init cexA cexB h3 h4 h5 h6 h7
+  obtain ⟨h1, h3, h4, h5, h6, h7, _⟩ := float_lexeme_cex
+  obtain ⟨r, hr, hiff⟩ := h Flags.init cexF1 cexF2 h3 h4 h5 h6 h7
   rw [hr] at h1
   have : r.diffs = 2 := by simpa [Except.map] using h1
-  have := hiff.2 h2
+  have := hiff.2 float_lexeme_eqv
   omega
 
-/-- the empty string has the key of a record: `['', {}]` vs `[{}, '']` (injectivity alone is not enough) -/
-theorem C07_emptykey_cex :
-    (compareTop (Cfg.default Flags.init false) cexE1 cexE2).map Res.diffs = .ok 2 ∧ eqv cexE1 cexE2 ∧
-      (∀ x ∈ listItems cexE1 ++ listItems cexE2, ∀ y ∈ listItems cexE1 ++ listItems cexE2, pyStr x = pyStr y → x = y) :=
-  emptykey_cex
+/-- **the hypothesis on the key is tight.**  For ANY two distinct leaves (scalars or `None`) with the same key, the
+lists `[x, y]` and `[y, x]` are equal up to order and the default comparison reports two differences. -/
+theorem C07_key_hypothesis_tight (fl : Flags) (x y : Val) (hx : DtLeaf x) (hy : DtLeaf y) (hne : x ≠ y)
+    (hs : jsonVal x = jsonVal y) :
+    (∃ r, compareTop (Cfg.default fl false) (.list .n0 [x, y]) (.list .n0 [y, x]) = .ok r ∧ r.diffs = 2) ∧
+      eqv (.list .n0 [x, y]) (.list .n0 [y, x]) :=
+  dt_tight fl x y hx hy hne hs
 
-/-- a tree compared with itself reports nothing (default comparison, no collision) -/
+/-- fixed finding C07-b: `{'a': [1, '1']}` and `{'a': ['1', 1]}` are equal up to order and nothing is reported
+(keys `1` and `"1"`; before the fix `str(1) == str('1')` paired `1` with `'1'`: two differences) -/
+theorem C07_collision_fixed :
+    (compareTop (Cfg.default Flags.init false) cexA cexB).map Res.diffs = .ok 0 ∧
+      isN0 cexA = true ∧ isN0 cexB = true ∧ RootPair cexA cexB ∧ uniqKeys cexA = true ∧ uniqKeys cexB = true :=
+  collision_fixed
+
+/-- fixed: the empty string has the key `""`, not the key `''` of every record: `['', {}]` vs `[{}, '']` -/
+theorem C07_emptykey_fixed :
+    (compareTop (Cfg.default Flags.init false) cexE1 cexE2).map Res.diffs = .ok 0 :=
+  emptykey_fixed
+
+/-- fixed finding C07-c: `{'a': [[{'x': 1, 'y': 2}]]}` vs `{'a': [[{'y': 2, 'x': 1}]]}` — the key of the nested list
+is written with sorted dictionary keys, the two inner lists meet and are compared key by key -/
+theorem C07_keyorder_fixed :
+    (compareTop (Cfg.default Flags.init false) cexO1 cexO2).map Res.diffs = .ok 0 ∧
+      jsonVal (.list .n0 [.dict .n0 [(['x'], .int 1), (['y'], .int 2)]])
+        = jsonVal (.list .n0 [.dict .n0 [(['y'], .int 2), (['x'], .int 1)]]) ∧
+      deq (.list .n0 [.dict .n0 [(['x'], .int 1), (['y'], .int 2)]])
+        (.list .n0 [.dict .n0 [(['y'], .int 2), (['x'], .int 1)]]) = true :=
+  keyorder_fixed
+
+/-- a tree (unique dictionary keys) compared with itself reports nothing -/
 theorem C07_default_refl (fl : Flags) (a : Val) (ha : isN0 a = true) (hr : RootPair a a)
-    (hua : uniqKeys a = true) (hc : NoStrCollision a a) :
+    (hua : uniqKeys a = true) (hc : KeyFaithfulOn a a) :
     ∃ r, compareTop (Cfg.default fl false) a a = .ok r ∧ r.diffs = 0 :=
   default_refl fl a ha hr hua hc
 
@@ -184,26 +158,41 @@ example : (compareTop (Cfg.default ⟨true, true, true, true, false, false⟩ tr
     = .ok (4, 1) := by decide
 
 /-- `{'a': [1, {'k': None}, 'x', [2]]}` vs `{'a': [[2], 'x', {'k': None}, 1]}`: the non-record items are
-permuted, the hypothesis of `C07_default_exact_partial` holds and nothing is reported -/
+permuted, nothing is reported by `compare`, four lines by `direct_compare` -/
 def exP : Val := .dict .n0 [(['a'], .list .n0 [.int 1, .dict .n0 [(['k'], .none)], .str ['x'], .list .n0 [.int 2]])]
 def exP' : Val := .dict .n0 [(['a'], .list .n0 [.list .n0 [.int 2], .str ['x'], .dict .n0 [(['k'], .none)], .int 1])]
-example : NoStrCollision exP exP' := by
-  unfold NoStrCollision
-  constructor <;> decide
 example : isN0 exP = true ∧ isN0 exP' = true ∧ uniqKeys exP = true ∧ uniqKeys exP' = true := by decide
 example : (compareTop (Cfg.default Flags.init false) exP exP').map Res.diffs = .ok 0 := by decide
 example : (compareTop (Cfg.default Flags.init true) exP exP').map Res.diffs = .ok 4 := by decide
-
-/-- non-vacuity of `C07_default_exact_local`: a cross-list collision (`1` against `'1'`), one line, not `eqv` -/
-example : isN0 dtExA = true ∧ isN0 dtExB = true ∧ uniqKeys dtExA = true ∧ uniqKeys dtExB = true := by decide
-example : RootPair dtExA dtExB := by simp [RootPair, dtExA, dtExB]
-example : (compareTop (Cfg.default Flags.init false) dtExA dtExB).map Res.diffs = .ok 1 := by decide
-/-- non-vacuity of the tightness theorems: `1`/`'1'`, `None`/`'None'`, `''` next to `{}` -/
-example : DtLeaf (.int 1) ∧ DtLeaf (.str ['1']) ∧ Val.int 1 ≠ .str ['1'] ∧ pyStr (.int 1) = pyStr (.str ['1']) := by
+/-- non-vacuity of `C07_default_exact`: the key is faithful on the non-record items of this pair -/
+example : KeyFaithfulOn exP exP' := by
+  have h1 : ∀ x ∈ listItems exP ++ listItems exP', ∀ y ∈ listItems exP ++ listItems exP',
+      (jsonVal x = jsonVal y ↔ deq x y = true) := by decide
+  have h2 : ∀ x ∈ listItems exP ++ listItems exP', jsonVal x ≠ [] := by decide
+  exact ⟨fun x y hx hy => h1 x hx y hy, h2⟩
+/-- … and on the pair of fixed finding C07-c (a nested list holding a dictionary with two keys) -/
+example : KeyFaithfulOn cexO1 cexO2 := by
+  have h1 : ∀ x ∈ listItems cexO1 ++ listItems cexO2, ∀ y ∈ listItems cexO1 ++ listItems cexO2,
+      (jsonVal x = jsonVal y ↔ deq x y = true) := by decide
+  have h2 : ∀ x ∈ listItems cexO1 ++ listItems cexO2, jsonVal x ≠ [] := by decide
+  exact ⟨fun x y hx hy => h1 x hx y hy, h2⟩
+example : eqv cexO1 cexO2 := by
+  obtain ⟨r, hr, hiff⟩ := C07_default_exact Flags.init cexO1 cexO2 (by decide) (by decide) trivial (by
+    have h1 : ∀ x ∈ listItems cexO1 ++ listItems cexO2, ∀ y ∈ listItems cexO1 ++ listItems cexO2,
+        (jsonVal x = jsonVal y ↔ deq x y = true) := by decide
+    have h2 : ∀ x ∈ listItems cexO1 ++ listItems cexO2, jsonVal x ≠ [] := by decide
+    exact ⟨fun x y hx hy => h1 x hx y hy, h2⟩)
+  have h0 := keyorder_fixed.1
+  rw [hr] at h0
+  exact hiff.1 (by simpa [Except.map] using h0)
+/-- the keys of its non-record items: `1`, `"x"`, `[2]` -/
+example : jsonVal (.int 1) = ['1'] ∧ jsonVal (.str ['x']) = ['"', 'x', '"'] ∧ jsonVal (.list .n0 [.int 2]) = ['[', '2', ']'] := by
+  decide
+/-- a cross-type pair `1` against `'1'`: unique on both sides now (two lines), and not `eqv` -/
+example : (compareTop (Cfg.default Flags.init false) (.list .n0 [.int 1]) (.list .n0 [.str ['1']])).map
+    (fun r => (r.diffs, r.selfUnique.length, r.otherUnique.length)) = .ok (2, 1, 1) := by decide
+/-- non-vacuity of the tightness theorem: the float lexeme `1` against the `int` 1 -/
+example : DtLeaf (.flt ['1']) ∧ DtLeaf (.int 1) ∧ Val.flt ['1'] ≠ .int 1 ∧ jsonVal (.flt ['1']) = jsonVal (.int 1) := by
   refine ⟨Or.inl rfl, Or.inl rfl, by decide, by decide⟩
-example : DtLeaf .none ∧ DtLeaf (.str ['N', 'o', 'n', 'e']) ∧ pyStr .none = pyStr (.str ['N', 'o', 'n', 'e']) := by
-  refine ⟨Or.inr rfl, Or.inl rfl, by decide⟩
-example : DtLeaf (.str []) ∧ pyStr (.str []) = [] ∧ eqv (.dict .n0 []) (.dict .n0 []) := by
-  refine ⟨Or.inl rfl, rfl, by simp [eqv, eqvK]⟩
 
 end N0.C07
